@@ -116,6 +116,41 @@ Theorem C15_pathmodel_printed_is_variant :
 Proof. intros S t p x Hd Hq Hn. split; [exact (own_var_ok S t Hd Hq)|exact (path_of_var t p x Hn)]. Qed.
 Print Assumptions C15_pathmodel_printed_is_variant.
 
+(* ---- lyd_change_term() of a key / leaf-list / leaf value, then the path ----
+   change_term t p w = Some t': the term node at p now holds canon type w (the canonical form of the text w); the identity
+   of the instance follows the current values (the model has no separate hash; seeded change C15-8 left the hash stale).
+   Whenever the changed tree is well-formed again - dwf S t', decidable: in particular the new key tuple / leaf-list value is
+   not the one of a sibling - and quotes_ok t', EVERY node of t' (the changed node, the list instance it is a key of,
+   everything below it) is found by its NEW printed path, exactly it, and lyd_new_path() with that path reports LY_EEXIST.
+   Not modelled: the move of a system-ordered instance to its sorted place (t' keeps the sibling order of t). *)
+Theorem C15_pathmodel_change_term_paths :
+  forall S t p w t',
+    swf S = true -> change_term t p w = Some t' -> dwf S t' = true -> quotes_ok t' = true ->
+    (exists x cw, node_at t p = Some x /\ canon (kind_ty (d_k x)) w = Some cw /\
+                  node_at t' p = Some (DN (d_m x) (d_n x) (d_k x) cw (d_ch x)) /\
+                  is_dflt (DN (d_m x) (d_n x) (d_k x) cw (d_ch x)) = false) /\
+    (forall q y, node_at t' q = Some y ->
+       exists bs, path_of t' q = Some bs /\ find_path S t' bs = FRes (EFound q) /\
+                  forall v, new_path S t' bs v = if is_dflt y then NCreated None [] else NErr E_EXIST).
+Proof. exact change_term_paths. Qed.
+Print Assumptions C15_pathmodel_change_term_paths.
+
+(* Regression example for the class of seeded change C15-8: in the example tree a key of a two-key list instance, an int8
+   key given as blank +09 blank and a configuration leaf-list value are changed; the changed trees are well-formed and all
+   their nodes satisfy the conclusions above by computation; the path of the uint8 leaf below the changed int8 key reads
+   n='9'; the text 128 is refused by int8; a change that makes two instances equal leaves the hypotheses (dwf false). *)
+Example C15_pathmodel_change_term_example :
+  changed_ok [0; 1; 1]%nat (sb "new ]'v") = true /\
+  changed_ok [0; 2; 0]%nat (sb " +09 ") = true /\
+  changed_ok [0; 0; 3; 2]%nat (sb "z") = true /\
+  (match change_term ex_t [0; 2; 0]%nat (sb " +09 ") with
+   | Some t' => path_of t' [0; 2; 3]%nat
+   | None => None
+   end) = Some (sb "/m1:c/tl[n='9'][b='true'][e='a b']/u") /\
+  change_term ex_t [0; 2; 0]%nat (sb "128") = None /\
+  (match change_term ex_t [0; 1; 1]%nat (sb "[x]'y/") with Some t' => dwf ex_S t' | None => true end) = false.
+Proof. exact change_term_example. Qed.
+
 (* The assumption quotes_ok cannot be dropped (known finding path-both-quotes): a well-formed tree whose list key holds
    a, single quote, b, double quote, c - the printed path of the leaf v below that list instance is rejected by the parser,
    so the search fails and so does the creation in an empty tree. *)
